@@ -29,6 +29,7 @@ ASSUMPTIONS = [
     "slot tags occur only in component templates (incl. fill bodies written there); is_filled probes only in component templates",
     "a Fills body captures at least one fill (otherwise the library treats the body as an implicit default: unspecified, skipped)",
     "loop variables have unique names (scoping is C03's subject)",
+    "when independent components of one program would raise different error classes, the statement does not say which surfaces first (component templates render in a deferred order): any error class that some order meets first is accepted",
 ]
 
 
@@ -50,7 +51,7 @@ def compare(ref, got):
         if got[0] == "div":
             return ("render-does-not-terminate", got[1])
         return ("unexpected-exception", f"{got[1]}: {got[2]}  (expected output {ref[1]!r})")
-    if got[0] == "exc" and got[1] == ref[1]:
+    if got[0] == "exc" and (got[1] == ref[1] or got[1] in getattr(ref[-1], "error_kinds", ())):
         return None
     if got[0] == "div":
         return ("render-does-not-terminate", got[1])
